@@ -1,7 +1,17 @@
-# scratch experiments (not a property)
+ASSUMPTIONS=[]
 def queries(tier):
-    qs = []
-    for (nm, d) in (("conc", {"CONC": 1}), ("conc_used", {"CONC": 1, "USED": 1}), ("sym", {}), ("conc_typed_used", {"CONC": 1, "USED": 1, "TYPED": 1})):
-        qs.append(Q("slice_min_" + nm, "X/slice_min.c", units=ARRAY_UNITS, harness_defines=d,
-                    unwind_default=11, fp=BUF_FP, stubs=["libc.c", "malloc_pages.c", "libc_loops.c"], unwind={"memcpy": 34, "memmove": 34, "memset": 34}, witness=[], flags=["--max-field-sensitivity-array-size", "400"]))
+    import importlib
+    SU = ["mptcore/config/%s.c" % f for f in "config_global node_assign node_query path_set path_next path_fini".split()] + [
+        "mptcore/node/%s.c" % f for f in "node_new node_destroy node_clear node_unlink gnode_after gnode_before gnode_pos node_locate".split()] + [
+        "mptcore/misc/identifier.c", "mptcore/array/array_clone.c"]
+    qs=[]
+    for (nm, sq, ops) in (("two", "{0,1,0}", "{0,0,2}"),):
+        qs.append(Q("st_"+nm, "C10/store.c", units=SU, harness_defines={"SEQ": sq, "OPS": ops, "NSTEP": 3, "V_NMAX": 32},
+                    unwind_default=5, flags=["--max-field-sensitivity-array-size", "200"],
+                    fp=[(r"getnode", ["verif_gnode_pos_u", "node_locate"]), (r"^collectionEach", ["h_item"]), (r"^mpt_(array_clone|path_fini):", ["h_buf_none"]),
+                        (r"^harness: .*vm\._vptr\)\.unref", ["configUnref"]), (r"^(configRemove|mpt_node_assign|mpt_node_destroy): .*unref", ["h_unref"]),
+                        (r"^configAssign: .*convert", ["h_conv"]), (r"^h_gconv", ["configConv"]), (r"^configQuery: .*fcn", ["h_handler"]),
+                        (r"\.query\)", ["configQuery"]), (r"\.assign\)", ["configAssign"]), (r"\.remove\)", ["configRemove"])],
+                    stubs=["libc.c", "libc_loops.c", "no_traits.c", "malloc_pool.c"], unwind={"memcpy": 20, "memset": 60, "memmove": 20, "strlen.0": 12, "strncmp.0": 8, "strcmp.0": 8, "strncmp": 8, "strcmp": 8, "harness": 8, "free": 18, "v_pool_live": 18, "calloc": 162},
+                    timeout=100, bounds="x", outside="x"))
     return qs
